@@ -48,12 +48,14 @@ const (
 	fkRefuse
 	fkNum
 	// kinds below are used by C02 only
-	fkOversize = 24
+	fkOversize       = 24
+	fkStreamResetMid = 25
+	fkStreamResetPre = 26
 )
 
 var fkNames = []string{"status404", "status403", "status400", "status429", "status500", "status503", "reset-before", "reset-mid",
 	"truncate", "short-cl", "flip", "empty", "substitute", "append", "stall", "delay-long", "cancel", "hook-fail",
-	"store-commit-error", "store-write-error", "store-open-error", "store-lost-commit", "refuse", "", "oversize"}
+	"store-commit-error", "store-write-error", "store-open-error", "store-lost-commit", "refuse", "", "oversize", "stream-reset-mid", "stream-reset-before"}
 
 type faultPlan struct {
 	kind  int
@@ -132,6 +134,10 @@ func (sw *syncWorld) policy(q *simkit.ReqRecord) simkit.FaultSpec {
 			}
 		case fkOversize:
 			f = simkit.FaultSpec{Kind: simkit.FOversize}
+		case fkStreamResetMid:
+			f = simkit.FaultSpec{Kind: simkit.FStreamReset, K: 1 + p.arg%300}
+		case fkStreamResetPre:
+			f = simkit.FaultSpec{Kind: simkit.FStreamReset, K: -1}
 		case fkFlip:
 			f = simkit.FaultSpec{Kind: simkit.FFlip, K: p.arg}
 		case fkEmpty:
@@ -287,7 +293,11 @@ func c04Plan(r *simkit.Run, c Cfg, w *World) (c04Cfg, []faultPlan) {
 			np = tp.Range(3, 5, "nfaultsMany")
 		}
 		for i := 0; i < np; i++ {
-			plans = append(plans, faultPlan{kind: tp.Choose(fkNum, "fkind"), at: tp.Choose(cfg.nAds+4, "fat"), arg: tp.Choose(1000, "farg")})
+			k := tp.Choose(fkNum+2, "fkind")
+			if k >= fkNum {
+				k = fkStreamResetMid + (k - fkNum)
+			}
+			plans = append(plans, faultPlan{kind: k, at: tp.Choose(cfg.nAds+4, "fat"), arg: tp.Choose(1000, "farg")})
 		}
 	}
 	return cfg, plans
@@ -522,7 +532,8 @@ func c02Check(sw *syncWorld, mode string, failed bool, reqFrom int, hooks []Hook
 			continue // head or discovery request
 		}
 		r.Probe("altered-block-served")
-		if !failed {
+		contentAltered := q.Fault.Kind != simkit.FResetMid && q.Fault.Kind != simkit.FShortCL && q.Fault.Kind != simkit.FStreamReset
+		if !failed && contentAltered {
 			r.Violate(mode+".accepted", "block %s was served altered (%s) and the sync still succeeded", w.CidName(c), q.Fault.String())
 		}
 		idx := sw.pub.AdIndex(c)
